@@ -94,8 +94,9 @@ func isFresh(P *Program, v ssa.Value, depth int) bool {
 			if isCallTo(x, fProtoClone) {
 				continue
 			}
-			// sub-message of a freshly cloned message (proto.Clone copies deeply)
-			if isGeneratedGetter(calleeOf(x)) && len(x.Common().Args) == 1 && isFresh(P, x.Common().Args[0], depth) {
+			// sub-message of a freshly *deep-cloned* message (proto.Clone copies sub-messages; a field-wise copy
+			// made by hand shares them with the original)
+			if isGeneratedGetter(calleeOf(x)) && len(x.Common().Args) == 1 && isDeepFresh(P, x.Common().Args[0], depth) {
 				continue
 			}
 			if ce := calleeOf(x); ce.Obj != nil && freshCtorNames[ce.Obj.Name()] {
@@ -151,6 +152,61 @@ func isFresh(P *Program, v ssa.Value, depth int) bool {
 				continue
 			}
 			return false
+		default:
+			return false
+		}
+	}
+	return true
+}
+
+// isDeepFresh: every source of v is a proto.Clone result (directly, through a type assertion, or as a
+// parameter that is deep-fresh at every call site).
+func isDeepFresh(P *Program, v ssa.Value, depth int) bool {
+	if v == nil {
+		return false
+	}
+	for _, l := range Leaves(v, leafOpts{noConcat: true}) {
+		switch x := l.(type) {
+		case *ssa.Call:
+			if isCallTo(x, fProtoClone) {
+				continue
+			}
+			if isGeneratedGetter(calleeOf(x)) && len(x.Common().Args) == 1 && isDeepFresh(P, x.Common().Args[0], depth) {
+				continue
+			}
+			return false
+		case *ssa.Extract:
+			if c, ok := x.Tuple.(*ssa.Call); ok && isCallTo(c, fProtoClone) {
+				continue
+			}
+			return false
+		case *ssa.TypeAssert:
+			if isDeepFresh(P, x.X, depth) {
+				continue
+			}
+			return false
+		case *ssa.Parameter:
+			if depth == 0 {
+				return false
+			}
+			fn := x.Parent()
+			idx := -1
+			for i, q := range fn.Params {
+				if q == x {
+					idx = i
+				}
+			}
+			callers := P.CallersOf(fn)
+			if idx < 0 || len(callers) == 0 {
+				return false
+			}
+			for _, c := range callers {
+				args := c.Common().Args
+				if idx >= len(args) || !isDeepFresh(P, args[idx], depth-1) {
+					return false
+				}
+			}
+			continue
 		default:
 			return false
 		}
@@ -507,6 +563,24 @@ func checkC16(c *Check) {
 				}
 				bad++
 				c.Fail("C16.R4", "shared-per-check-object/"+cl, P.Pos(instrPos(st)), "a per-check object ("+shortID(vt)+") is stored into shared location "+cl)
+			}
+		}
+	}
+	for _, fn := range all {
+		for _, ci := range allCalls(fn) {
+			id := funcID(calleeOf(ci).Obj)
+			if id != "sync.Map.Store" && id != "sync.Map.LoadOrStore" && id != "sync.Map.Swap" {
+				continue
+			}
+			for _, a := range callArgs(ci) {
+				vt := typeID(stripConv(a).Type())
+				if mi, isMI := a.(*ssa.MakeInterface); isMI {
+					vt = typeID(mi.X.Type())
+				}
+				if vt == pkgAuthz+".oidcHandler" || vt == "net/http.Client" || vt == idGeneratorIfc || vt == idHandlerIface || vt == pkgAuthz+".mockHandler" {
+					bad++
+					c.Fail("C16.R4", "shared-per-check-object/sync.Map/"+fnKey(fn), P.Pos(ci.Pos()), "a per-check object ("+shortID(vt)+") is stored into a shared sync.Map")
+				}
 			}
 		}
 	}
